@@ -5,6 +5,7 @@ import (
 	"go/constant"
 	"go/token"
 	"go/types"
+	"regexp"
 	"sort"
 	"strings"
 
@@ -204,11 +205,16 @@ func backingAccesses(p *an.Prog, f *an.Fn) []backing {
 			if strings.HasPrefix(name, "conv:") || strings.HasPrefix(name, "builtin.") && name != "builtin.delete" {
 				return true
 			}
-			// methods of the receiver's own type that return a string are key derivations (normalize)
+			// methods of the receiver's own type and functions of the module that turn strings into one
+			// string are key derivations (normalize)
 			if callee := an.Callee(info, x); callee != nil {
-				if sig := callee.Type().(*types.Signature); sig.Recv() != nil && f.Sig.Recv() != nil &&
-					an.NamedOf(sig.Recv().Type()) == an.NamedOf(f.Sig.Recv().Type()) && sig.Results().Len() == 1 && isString(sig.Results().At(0).Type()) {
-					return true
+				if sig := callee.Type().(*types.Signature); sig.Results().Len() == 1 && isString(sig.Results().At(0).Type()) {
+					if sig.Recv() != nil && f.Sig.Recv() != nil && an.NamedOf(sig.Recv().Type()) == an.NamedOf(f.Sig.Recv().Type()) {
+						return true
+					}
+					if g := p.FnByObj[callee]; g != nil && g.Pkg == f.Pkg && sig.Recv() == nil && allStrings(sig.Params()) {
+						return true
+					}
 				}
 			}
 			if name == "builtin.delete" && len(x.Args) == 2 && derived(x.Args[1]) {
@@ -303,6 +309,17 @@ func hasNotDirConjunct(e ast.Expr) bool {
 	return false
 }
 
+func allStrings(t *types.Tuple) bool {
+	for i := 0; i < t.Len(); i++ {
+		if !isString(t.At(i).Type()) {
+			return false
+		}
+	}
+	return t.Len() > 0
+}
+
+var keyCallRe = regexp.MustCompile(`^(\$r\.)?(\w+)\(\$p0\)$`)
+
 func inmemRules(c *an.Ctx) {
 	p := c.P
 	// "Open(p) yields exactly the content stored under p": the stored bytes are a private copy that is never written again
@@ -310,26 +327,59 @@ func inmemRules(c *an.Ctx) {
 	c.Expect("C19.inmem", "stores into InMemLoader.files", ns, 1)
 	inPlaceWrites(c, "C19.inmem", "InMemLoader.files", "a reader returned by an earlier Open would see a mix of old and new content")
 	info := p.Jet.TypesInfo
-	norm := c.Fn("C19.inmem", "(*InMemLoader).normalize")
-	if norm == nil {
-		return
-	}
-	// normalize is path.Join("/", filepath.ToSlash(p))
-	okNorm := false
-	an.InspectOwn(norm, func(n ast.Node) bool {
-		if ret, ok := n.(*ast.ReturnStmt); ok && len(ret.Results) == 1 {
-			switch an.Norm(norm, ret.Results[0]) {
-			case `path.Join("/", filepath.ToSlash($p0))`, `path.Clean(("/" + filepath.ToSlash($p0)))`:
-				okNorm = true // both root the slash-separated spelling and clean it; ".." cannot climb above "/"
+	// the key derivation is whatever function the accesses to files apply to the path parameter: one and
+	// the same for every access (a method of the loader or a function of the package), and it must root
+	// and clean the slash-separated spelling
+	okForm := func(g *an.Fn) bool {
+		okNorm := false
+		an.InspectOwn(g, func(n ast.Node) bool {
+			if ret, ok := n.(*ast.ReturnStmt); ok && len(ret.Results) == 1 {
+				switch an.Norm(g, ret.Results[0]) {
+				case `path.Join("/", filepath.ToSlash($p0))`, `path.Clean(("/" + filepath.ToSlash($p0)))`:
+					okNorm = true // both root the slash-separated spelling and clean it; ".." cannot climb above "/"
+				}
 			}
+			return true
+		})
+		return okNorm
+	}
+	var norm *an.Fn
+	keyForm := ""
+	keyOK := func(f *an.Fn, got string) bool {
+		switch got {
+		case `path.Join("/", filepath.ToSlash($p0))`, `path.Clean(("/" + filepath.ToSlash($p0)))`:
+			if keyForm == "" {
+				keyForm = got
+			}
+			return got == keyForm
+		}
+		m := keyCallRe.FindStringSubmatch(got)
+		if m == nil {
+			return false
+		}
+		var g *an.Fn
+		for _, cand := range p.Fns {
+			if cand.Pkg != p.Jet || cand.Obj == nil || cand.Body == nil || cand.Obj.Name() != m[2] || cand.Sig == nil {
+				continue
+			}
+			isMethod := cand.Sig.Recv() != nil
+			if isMethod != (m[1] != "") || isMethod && an.TypeName(cand.Sig.Recv().Type()) != "*jet.InMemLoader" {
+				continue
+			}
+			g = cand
+		}
+		if g == nil || norm != nil && g != norm {
+			return false
+		}
+		if norm == nil {
+			norm, keyForm = g, got
 		}
 		return true
-	})
-	c.Check(okNorm, "C19.inmem", "normalize", norm.Pos(), `normalize is path.Join("/", filepath.ToSlash(p))`, `InMemLoader.normalize is not path.Join("/", filepath.ToSlash(p)): spellings of one clean absolute path are no longer one entry`)
+	}
 	// every access to files in a method with a path parameter uses normalize(param)
 	n := 0
 	for _, f := range p.Units() {
-		if f.Pkg != p.Jet || f.Sig == nil || f.Sig.Recv() == nil || an.TypeName(f.Sig.Recv().Type()) != "*jet.InMemLoader" || f == norm {
+		if f.Pkg != p.Jet || f.Sig == nil || f.Sig.Recv() == nil || an.TypeName(f.Sig.Recv().Type()) != "*jet.InMemLoader" {
 			continue
 		}
 		if f.Sig.Params().Len() == 0 || !isString(f.Sig.Params().At(0).Type()) {
@@ -339,7 +389,7 @@ func inmemRules(c *an.Ctx) {
 		check := func(idx ast.Expr, pos token.Pos) {
 			n++
 			got := an.Norm(f, idx)
-			c.Check(got == "$r.normalize($p0)", "C19.inmem", f.Name+"/key", pos, "files is indexed with normalize(path)",
+			c.Check(keyOK(f, got), "C19.inmem", f.Name+"/key", pos, "files is indexed with normalize(path)",
 				"InMemLoader.files is accessed with key "+got+" instead of normalize(path): the entry is stored/looked up under a spelling-dependent key")
 		}
 		an.InspectOwn(f, func(node ast.Node) bool {
@@ -357,6 +407,14 @@ func inmemRules(c *an.Ctx) {
 		})
 	}
 	c.Expect("C19.inmem", "accesses to InMemLoader.files", n, 4)
+	if norm != nil {
+		c.FnsAnalysed[norm.Name] = true
+		c.Check(okForm(norm), "C19.inmem", "normalize", norm.Pos(), `normalize is path.Join("/", filepath.ToSlash(p))`, norm.Name+` is not path.Join("/", filepath.ToSlash(p)): spellings of one clean absolute path are no longer one entry`)
+	} else if keyForm != "" {
+		c.OK("C19.inmem", "normalize", token.NoPos, "the key is computed in place as %s", keyForm)
+	} else {
+		c.Bad("C19.inmem", "normalize", token.NoPos, nil, "no access to InMemLoader.files derives its key from the path by rooting and cleaning it")
+	}
 	// Open: returns a reader over the value read from the map, or a non-nil error when absent
 	if op := c.Fn("C19.inmem", "(*InMemLoader).Open"); op != nil {
 		oinfo := op.Info()
@@ -381,7 +439,7 @@ func inmemRules(c *an.Ctx) {
 			case errIsNil && !present:
 				okOpen = false
 				c.Bad("C19.inmem", "(*InMemLoader).Open/absent", e.Ret.Pos(), e.Trail, "Open returns a nil error on a path where the entry was not found")
-			case errIsNil && !strings.Contains(val, "$r.files[$r.normalize($p0)]"):
+			case errIsNil && !strings.Contains(val, "$r.files["+keyForm+"]"):
 				okOpen = false
 				c.Bad("C19.inmem", "(*InMemLoader).Open/content", e.Ret.Pos(), e.Trail, "Open returns %s, which is not a reader over the bytes stored under the normalised path", val)
 			case !errIsNil && !absent:
